@@ -218,3 +218,35 @@ def emits_name(ctx, owner, call, name):
         if not hit:
             return False
     return True
+
+
+def check_table_owned(ctx, rep, RULE):
+    """The table in force can change only through the setter (which clears the memos): what the setter binds is a
+    fresh copy -- never the caller's own dict, never a preset object -- and the table getter hands out a copy.
+    Without this, an in-place edit of a caller-held dict changes the table in force behind the memos' back."""
+    from sa.effects import Effects
+    eff = Effects(ctx)
+    pt = ctx.pt
+    setter, table_vars = eff.table_vars()
+    if not table_vars:
+        raise AnalysisError("set_semantic_constraints rebinds no module-level table (anchor lost)")
+    n = 0
+    for r in pt.records(setter.qual):
+        if r.op != "rebind-global" or not any((t[1], t[2]) in table_vars for t in r.targets):
+            continue
+        for i in [v for v in r.values if v != IMM]:
+            n += 1
+            bad = None
+            if i == UNK:
+                bad = "table bound to an unknown object"
+            elif i[0] == "extparam":
+                bad = "the table in force is the caller's own dict (parameter %s): editing it later changes the table without " \
+                      "clearing the memoised capacities / alphabet" % i[2]
+            elif i[0] == "alloc" and i[1].startswith("mod:"):
+                bad = "the table in force is a preset object itself (%s)" % pt.describe(i)
+            rep.ob(RULE, bad is None, r.node, setter, construct="%s := %s" % (r.detail, pt.describe(i)), how="a fresh copy owned by the module",
+                   witness=bad, nontrivial=True, key="table-owned/%s" % ("bad:" + str(i[0]) if bad else "fresh-copy"))
+    if not n:
+        raise AnalysisError("the setter does not rebind the table (anchor lost)")
+    g = ctx.api("get_semantic_constraints")
+    check_fresh_return(ctx, eff, rep, g, RULE, "get_semantic_constraints")
